@@ -9,11 +9,11 @@
     and unord_q, quiescence at termination, no lost block, `attach_in_range`,
     `no_unord_leak`, and `progress` (deadlock-freedom: every reachable
     non-final state has an enabled transition, under `EMIT_THRESH < total_out`).
-  NOT PROVED (checked by the BFS driver `schedd-bfs` and by trace acceptance
-  only, never presented as theorems): wake-up discipline (the model has no
-  condition variable: an idle worker may start the selected task at any time),
-  and termination of every maximal run (a decreasing measure; deadlock-freedom
-  alone does not exclude infinite runs of the model).
+    `measure_decreases` / `terminates` (every transition decreases a
+    well-founded measure, so every run is finite and — with `progress` — ends
+    in the final state), and, on the refinement `Model.SchedDW` that adds
+    `next_task`, the mutex holder and the workers' condition-variable states,
+    `no_lost_wakeup`.
 -/
 import LbzVerif.Lemmas.SchedD.Safe3
 import LbzVerif.Lemmas.SchedD.Attach
@@ -25,6 +25,8 @@ import LbzVerif.Lemmas.SchedD.Holder2
 import LbzVerif.Lemmas.SchedD.OrderCap
 import LbzVerif.Lemmas.SchedD.UnordCap2
 import LbzVerif.Lemmas.SchedD.ProgressFinal
+import LbzVerif.Lemmas.SchedD.Measure2
+import LbzVerif.Lemmas.SchedD.Wake2
 import LbzVerif.Lemmas.SchedD.Witness
 
 namespace LbzVerif.Props.C11.Expand
@@ -213,5 +215,100 @@ example : ∃ s, Reach cfgF4 s ∧ s.failed = false ∧ enabled cfgF4 s = [] := 
   obtain ⟨s, hr, hp⟩ := reach_of_run h
   simp only [Bool.and_eq_true, Bool.not_eq_true', decide_eq_true_eq] at hp
   exact ⟨s, hr, hp.1, hp.2⟩
+
+/-! ### termination -/
+
+/-- **measure**: `mu c s` is a 10-tuple (not failed; unread input and reader
+    phase; parsing not done; distance of the next header origin to the end of
+    the input; distance of the parser position to the end; scan tasks with the
+    candidates they can still report; retrieve jobs with their distance to the
+    end of the input; buffers still to emit; buffers in reord_q / at the writer;
+    queued items not yet picked up) that decreases in the lexicographic order
+    `muLt` (well-founded: `muLt_wf`) along EVERY transition of a reachable state
+    — there is no label that may repeat for free (the base model has no
+    spurious wake-up; the wake-up layer is `Model.SchedDW`).  Only `0 < W` (input
+    blocks are non-empty) is needed: `T` is finite, each block emits finitely
+    many buffers (`RRes.nb`), and speculative work is bounded because a scan
+    position only moves forward and reports each candidate once. -/
+theorem measure_decreases {c : Cfg} (hW : 0 < c.W) {s s' : State} {l : Label} (h : Reach c s)
+    (hs : step c s l = some s') : muLt (mu c s') (mu c s) :=
+  step_measure hW h hs
+
+/-- **terminates**: there is no infinite run from a reachable state, for any
+    schedule (no fairness assumption, no hypothesis on the slot counts). -/
+theorem terminates {c : Cfg} (hW : 0 < c.W) (f : Nat → State) (ℓ : Nat → Label)
+    (h0 : Reach c (f 0)) : ¬ ∀ i, step c (f i) (ℓ i) = some (f (i + 1)) :=
+  no_infinite_run hW f ℓ h0
+
+/-- … and a run that cannot be extended has ended in the final state (`failf`
+    was called, or all workers left the loop — then `output_eq` applies).  So
+    every maximal run is finite and ends in the final state. -/
+theorem maximal_run_final {c : Cfg} (hW : 0 < c.W) (hn : 1 ≤ c.n) (ho : EMIT_THRESH < c.totalOut)
+    (hti : 1 ≤ c.totalIn) {s : State} (h : Reach c s) (hmax : enabled c s = []) :
+    final c s = true := by
+  cases hfin : final c s with
+  | true => rfl
+  | false => exact absurd hmax (progress hW hn ho hti h hfin)
+
+/-- non-vacuity: the measure of the initial state of the F4 shape, and the
+    37-step run `traceF2` is a strictly descending chain ending in termination -/
+example : ∃ s', run cfgF4 (init cfgF4) traceF2 = some s' ∧ terminated cfgF4 s' = true ∧
+    Relation.TransGen muLt (mu cfgF4 s') (mu cfgF4 (init cfgF4)) := by
+  cases hr : run cfgF4 (init cfgF4) traceF2 with
+  | none =>
+    have h : (run cfgF4 (init cfgF4) traceF2).isSome = true := by decide +kernel
+    rw [hr] at h; cases h
+  | some s' =>
+    refine ⟨s', rfl, ?_, run_measure (c := cfgF4) (by decide) traceF2 Reach.init hr (by simp [traceF2])⟩
+    have h : (run cfgF4 (init cfgF4) traceF2).any (fun s => terminated cfgF4 s) = true := by
+      decide +kernel
+    rw [hr] at h; exact h
+
+/-! ### wake-up discipline (refinement `Model.SchedDW`) -/
+
+open LbzVerif.Model.SchedDW in
+/-- **no_lost_wakeup**.  `Model.SchedDW` refines the base model with the C
+    variable `next_task`, the holder of `sched_mutex` and one state per worker
+    (`ready`: runnable, wants the mutex; `inloop`: holds it at the top of
+    `while (next_task != NULL)`; `running`: inside a task, mutex released;
+    `waiting`: in `xwait`; `exited`), `sched_unlock` = `select_task()` + `xsignal`
+    iff `next_task != NULL || finished()`, `xwait` without signal, `xbroadcast`
+    at exit, and spurious wake-ups.  Every refined run projects to a run of the
+    base model (`reachW_base`), so all theorems above apply.  In every reachable
+    refined state:
+    * whenever `sched_mutex` is free, `next_task = select_task(state)`, and if a
+      task is ready or the process has finished then some worker is runnable
+      (`ready`) or nobody is waiting — no wake-up is lost;
+    * a worker has exited only if the base state is terminated, and then nobody
+      waits any more;
+    * the `running` workers are exactly the base model's busy workers, and a
+      worker at the top of the loop always finds the base model's
+      "a worker is available" guard true — the refinement never blocks a task
+      the C program would start. -/
+theorem no_lost_wakeup {c : Cfg} (hW : 0 < c.W) {w : WState} (h : ReachW c w) :
+    (w.holder = none → (w.nextTask.isSome = true ∨ finished c w.base = true) →
+      WPh.ready ∈ w.ws ∨ ∀ p ∈ w.ws, p ≠ .waiting) ∧
+    (w.holder = none → w.nextTask = selectTask c w.base) ∧
+    (WPh.exited ∈ w.ws → terminated c w.base = true ∧ ∀ p ∈ w.ws, p ≠ .waiting) ∧
+    (w.ws.filter (· == .running)).length = busyCount w.base ∧
+    (∀ i : Nat, w.ws[i]? = some WPh.inloop → freeWorker c w.base = true) ∧
+    Reach c w.base :=
+  let n := LbzVerif.Lemmas.SchedD.no_lost_wakeup h
+  ⟨n.1, n.2, exit_final hW h, running_count h, fun _ hi => inloop_free h hi, reachW_base h⟩
+
+open LbzVerif.Model.SchedDW in
+/-- non-vacuity: a refined run (n = 2) reaches a state with the mutex free, a task
+    selected, one worker waiting and the other one runnable; another one reaches
+    the state where both workers have exited -/
+example : (∃ w, ReachW wakeCfg w ∧ w.holder = none ∧ w.nextTask.isSome = true ∧
+      WPh.waiting ∈ w.ws ∧ WPh.ready ∈ w.ws) ∧ (∃ w, ReachW wakeCfg w ∧ WPh.exited ∈ w.ws) := by
+  refine ⟨?_, ?_⟩
+  · obtain ⟨w, hr, hp⟩ := reachW_of_any wake_witness_signal
+    simp only [Bool.and_eq_true, decide_eq_true_eq] at hp
+    obtain ⟨⟨h1, h2⟩, h3⟩ := hp
+    exact ⟨w, hr, h1, by rw [h2]; rfl, by rw [h3]; simp, by rw [h3]; simp⟩
+  · obtain ⟨w, hr, hp⟩ := reachW_of_any wake_witness_exit
+    simp only [Bool.and_eq_true, decide_eq_true_eq] at hp
+    exact ⟨w, hr, by rw [hp.1]; simp⟩
 
 end LbzVerif.Props.C11.Expand
